@@ -201,7 +201,9 @@ pub fn try_fraction_mismatch(conv: &Converter, layers: &[Fractions], unit: &Unit
         Value::Number(Number::Regular(x)) if *x == v => None,
         Value::Number(Number::Regular(_)) => Some("the value changed"),
         Value::Number(n @ Number::Fraction { whole, num, den, err }) => {
-            if !lim.enabled {
+            if !(v > 0.0) {
+                Some("a non-positive value approximated by a fraction")
+            } else if !lim.enabled {
                 Some("a fraction although fractions are disabled for this unit")
             } else if *num != 0 && (*den > lim.max_den as u32 || !DENOMS.contains(den) || num >= den) {
                 Some("denominator outside the limits of the unit")
@@ -263,6 +265,17 @@ fn frac_envs() -> Vec<FracEnv> {
             v.push(mk("bundled units + a layer with a loose system-level and tight unit-level accuracy", conv, layers));
         }
     }
+    // units that belong to no system, next to a metric-level setting that must not reach them
+    let layer_src = "[fractions]\nmetric = { enabled = true, max_denominator = 16, accuracy = 0.2 }\n[[quantity]]\nquantity = \"volume\"\n[quantity.units]\nunspecified = [ { names = [\"glass\"], symbols = [\"gls\"], ratio = 0.2 } ]\n[[quantity]]\nquantity = \"mass\"\n[quantity.units]\nunspecified = [ { names = [\"stick\"], symbols = [\"stk\"], ratio = 113.4 } ]\n";
+    if let Ok(layer) = toml::from_str::<UnitsFile>(layer_src) {
+        let mut layers = base_layers.clone();
+        layers.extend(layer.fractions.clone());
+        if let Ok(conv) = ConverterBuilder::new().with_units_file(UnitsFile::bundled()).and_then(|b| b.with_units_file(layer)).and_then(|b| b.finish()) {
+            // (this one sweeps every unit, not only those with fractions enabled: the point is that they stay off)
+            let units: Vec<Arc<Unit>> = conv.all_units().filter(|u| u.system.is_none()).filter_map(|u| conv.find_unit(u.symbol())).collect();
+            v.push(FracEnv { name: "bundled units + system-less units and a metric-level fraction setting", conv, layers, units });
+        }
+    }
     v
 }
 
@@ -284,6 +297,8 @@ fn frac_values(tier: Tier) -> Vec<f64> {
         v.push(k as f64 / 10.0);
     }
     v.extend([16.5, 24.0, 31.75, 48.0, 100.5, 1000.25]);
+    // non-positive values are never approximated
+    v.extend([-0.5, -1.25, -120.0, 0.0]);
     v
 }
 
@@ -327,6 +342,8 @@ fn check_fraction_op(env: &FracEnv, unit: &Arc<Unit>, start: f64, end: Option<f6
         let desc = format!("{op} of {start}{} {} with {}: {what} became {n:?} {}; the limits of that unit are {lim:?}", end.map(|e| format!("-{e}")).unwrap_or_default(), unit.symbol(), env.name, new_unit.symbol());
         let class = if !lim.enabled {
             Some("fraction in a unit whose fractions are disabled")
+        } else if !(original > 0.0) {
+            Some("non-positive value approximated by a fraction")
         } else if num != 0 && den > lim.max_den as u32 {
             Some("denominator above the maximum of the unit")
         } else if num != 0 && (!DENOMS.contains(&den) || num >= den) {
